@@ -51,6 +51,7 @@ type Opts struct {
 	CAN     bool // password is the CAN (PACE only); otherwise the MRZ
 	Layout  ldsgen.Layout
 	ExtDoc  bool
+	MRZ     *ldsgen.MRZFields // fixed MRZ content (clones of another document)
 
 	DGs         []int // data groups stored on the chip (1 is always added)
 	Unsupported []int // further numbers listed in the SOD and stored, but not supported by the reader (3, 4, 5, ...)
@@ -175,6 +176,9 @@ func Build(r *mrand.Rand, o Opts) *Perso {
 	f := ldsgen.RandMRZ(r, ldsgen.MRZOpts{Layout: layout, Extended: ext, Plain: true})
 	f.IssuingState = o.Country[0]
 	f.Nationality = o.Country[0]
+	if o.MRZ != nil {
+		f = *o.MRZ
+	}
 	dg1, v1 := ldsgen.NewDG1(r, ldsgen.DG1Opts{Fields: &f})
 	p.MRZ, p.Zone, p.MRZInfo = f, v1.MRZ, mrzInfo(f)
 	p.CANStr = fmt.Sprintf("%06d", r.IntN(1000000))
